@@ -32,9 +32,29 @@ def variants(base_script, logic, rng, k):
 
 def run_case(args):
     idx, seed, binary, k, timeout = args
+    if isinstance(idx, str):                       # corpus file: every option vector
+        script = open(idx).read()
+        rng = random.Random(f"c05-{seed}-{idx}")
+        res = []
+        for name, sc in variants(script, "corpus", rng, len(VECTORS)):
+            out, err, rc = runner.run_opensmt(binary, sc, None, timeout=timeout)
+            res.append((name, runner.answers(out) if rc != "timeout" else "timeout", sc))
+        return {"idx": idx, "logic": "corpus", "script": script, "runs": res}
     rng = random.Random(f"c05-{seed}-{idx}")
     logic = LOGICS[idx % len(LOGICS)]
-    if rng.random() < 0.3:
+    fam = idx % 7
+    if fam == 5:
+        # short clauses over few Boolean and theory atoms: propositional conflicts among theory atoms
+        p, script, checks = gen.clausal_history(logic, rng, steps=rng.choice([None, 10]))
+        if rng.random() < 0.5:                      # a single query: the same clauses without the history
+            ls = [l for l in script.split("\n") if l and not l.startswith(("(push", "(pop", "(check-sat"))]
+            script = "\n".join(ls + ["(check-sat)"]) + "\n"
+    elif fam == 6:
+        # functions and predicates with Boolean arguments (needs a logic with uninterpreted functions)
+        import engine
+        c = engine.make_boolarg_case(idx, seed)
+        logic, script = c["logic"], c["script"]
+    elif rng.random() < 0.3:
         p, script, checks = gen.history(logic, rng, big=(idx % 4 == 3))
     else:
         p, a, script = gen.single_query(logic, rng, big=(idx % 4 == 3))
@@ -51,7 +71,8 @@ def run(tier):
     binary = common.opensmt_bin("hooks")
     n, k = (110, 7) if tier == "quick" else (2000, 15)
     with mp.Pool(min(common.JOBS, 14)) as pool:
-        results = pool.map(run_case, [(i, chk.seed, binary, k, 8 if tier == "quick" else 30) for i in range(n)], chunksize=2)
+        corpus = sorted(str(f) for f in (common.VERIF / "corpus" / "C05").glob("*.smt2"))
+        results = pool.map(run_case, [(i, chk.seed, binary, k, 8 if tier == "quick" else 30) for i in corpus + list(range(n))], chunksize=2)
     runs = timeouts = pairs = 0
     for r in results:
         ans = [(nm, a) for nm, a, _ in r["runs"] if a != "timeout"]
